@@ -43,6 +43,9 @@ def enabled(run, tag):
         elif r.cancelled:
             name = {"fetch": "fetchDone", "offsets": "offsetDone", "offsetFetch": "offsetFetchDone"}[r.kind]
             evs.append("%s %d err kafka:%d" % (name, r.k, tag))
+            # ... or, late, with a success (the client sent it after all)
+            evs.append({"fetch": "fetchDone %d ok %d:%d end" % (r.k, r.args.get("offset", 0), tag), "offsets": "offsetDone %d ok 0" % r.k,
+                        "offsetFetch": "offsetFetchDone %d ok 1" % r.k}[r.kind])
         elif r.kind == "fetch":
             o = r.args["offset"]
             evs += ["fetchDone %d ok %d:%d,%d:%d end" % (r.k, o, tag, o + 2, tag + 1), "fetchDone %d ok - small" % r.k,
